@@ -1,10 +1,14 @@
 import BSModel.Driver.Util
 import BSModel.Driver.C03
 import BSModel.Model.ParseOnly
+import BSModel.Driver.C10
+import BSModel.Model.StrainerParse
 /-! protocol: `fbuild <pre> <cont> <tags> <strings> <events>`
   tags    = `tags=ID.ID…` : the start tags (identified by the PFX slot of their start event) the filter allows; `tags=*` all, `tags=-` none
   strings = `strs=CPS;CPS…` : the strings the filter allows (`strs=*` all, `strs=-` none; an empty string is written `e`)
-  events as in C03 -/
+  events as in C03
+  `allow <name crit> <attrs arg> <string crit> <kwargs> <re> <fs> <pfx|~> <name> <k=v&k=v|->` : `SoupStrainer(...).allow_tag_creation(pfx, name, raw attrs)` → `1`/`0`
+  `allowstr <name crit> <attrs arg> <string crit> <kwargs> <re> <fs> <cps|e>` : `allow_string_creation(string)` (criteria and tables as in C10) -/
 namespace BS.Drv.C16
 open BS.Builder BS.ParseOnly BS.Drv BS
 
@@ -21,6 +25,19 @@ def handle : List String → String
     match (splitNE ";" evs).mapM C03.parseEv with
     | none => "bad-op"
     | some es => String.join ((fBuild cfg f es).map C03.showDoc)
+  | ["allow", nm, atA, st, kw, re, fs, pfx, name, raw] =>
+    let q : BS.Search.Query := { name := C10.parseCrit nm, attrs := C10.parseAttrsArg atA, string := C10.parseCrit st, kwargs := C10.parsePairs kw }
+    let O := C10.parseOracle re "-" fs
+    let rawL : List (PStr × PStr) := (splitNE "&" raw).filterMap fun kv =>
+      match kv.splitOn "=" with
+      | [k, v] => some (cps k, if v == "e" then [] else cps v)
+      | _ => none
+    let r := BS.StrainerParse.allowTagCreation O (BS.Search.mkStrainer q) (if pfx == "~" then none else some (if pfx == "e" then [] else cps pfx)) (cps name) rawL
+    if r then "1" else "0"
+  | ["allowstr", nm, atA, st, kw, re, fs, str] =>
+    let q : BS.Search.Query := { name := C10.parseCrit nm, attrs := C10.parseAttrsArg atA, string := C10.parseCrit st, kwargs := C10.parsePairs kw }
+    let O := C10.parseOracle re "-" fs
+    if BS.StrainerParse.allowStringCreation O (BS.Search.mkStrainer q) (if str == "e" then [] else cps str) then "1" else "0"
   | _ => "bad-op"
 
 end BS.Drv.C16
